@@ -9,7 +9,7 @@ pub fn def() -> PropDef {
         builds: BOTH,
         rule: "every text over a newline-rich menu up to length N x 25 ordered indent pairs x separator x algorithm x splitter x break_words x LF/CRLF x width range; plus every history of <= 3/4 paragraphs through the real per-paragraph transition function; plus a differential over indent pairs with equal display widths and emptiness; non-trivial = a text with >= 2 paragraphs or a blank paragraph under a non-empty indent pair (T), a history of >= 2 paragraphs (P), outputs with >= 2 lines (differential)",
         assumptions: BASE_ASSUMPTIONS,
-        floor: |t| t.pick(100_000, 1_000_000),
+        floor: |t| t.pick(100_000, 300_000),
         run,
     }
 }
